@@ -15,3 +15,4 @@ pub fn naive_find(p: &[u8], t: &[u8]) -> Vec<usize> {
 }
 pub mod align;
 pub mod sa;
+pub mod io;
